@@ -541,6 +541,24 @@ if mode == "recv":
             out["r"] = ("exc", type(e).__name__)
     th = threading.Thread(target=f, daemon=True); th.start(); th.join(float(sys.argv[3]))
     print("RESULT", "blocked" if th.is_alive() else out["r"][0], flush=True)
+elif mode == "reaped":
+    # the application ignores SIGCHLD (daemon idiom), so the kernel reaps the proxy command the moment it exits;
+    # the transport's shutdown must still wake a thread parked in accept() and set the caller's event
+    import signal; signal.signal(signal.SIGCHLD, signal.SIG_IGN)
+    import logging; logging.getLogger("paramiko").setLevel(logging.CRITICAL); logging.getLogger("paramiko").addHandler(logging.NullHandler())
+    sys.stderr = open(os.devnull, "w")
+    p = ProxyCommand("sh -c 'sleep 0.4'")
+    t = paramiko.Transport(p)
+    ev = threading.Event()
+    t.start_client(event=ev)
+    def f():
+        try:
+            out["r"] = ("ret", t.accept(None))
+        except BaseException as e:
+            out["r"] = ("exc", type(e).__name__)
+    th = threading.Thread(target=f, daemon=True); th.start(); th.join(float(sys.argv[3]))
+    print("RESULT", "blocked" if th.is_alive() else out["r"][0], "active" if t.is_active() else "inactive",
+          "event-set" if ev.is_set() else "event-not-set", flush=True)
 else:
     # transport over a proxy command that exits at once: start_client must fail promptly, transport inactive
     import logging; logging.getLogger("paramiko").setLevel(logging.CRITICAL); logging.getLogger("paramiko").addHandler(logging.NullHandler())
@@ -793,6 +811,15 @@ def run(ctx):
     pm = ctx.driver("C13", ["proxy fixed 10 0 3 4", "proxy fixed 10 0 - 2"])
     r1 = proxy_case("recv", T)
     r2 = proxy_case("transport", T)
+    r3 = proxy_case("reaped", T)
+    ctx.case(("proxy", "reaped"), True)
+    ctx.dist("proxy-reaped:" + r3)
+    if r3.startswith("blocked") or " active" in r3 or "event-not-set" in r3:
+        ctx.fail("blocked:proxy-exit-child-already-reaped",
+                 {"proxy": "Transport over a command that exits, SIGCHLD ignored (child reaped at once)",
+                  "waiting": "accept(None) and the event given to start_client"}, r3)
+    elif r3.startswith("error"):
+        ctx.dist("proxy-reaped-harness-error")
     ctx.case(("proxy", "recv"), True)
     ctx.case(("proxy", "transport"), True)
     ctx.sample({"proxy_recv": r1, "proxy_transport": r2})
